@@ -25,8 +25,6 @@ package terminal
 //@ method (i *IntegerNode) Pos() (x parsley.Pos) = i.pos
 //@ method (i *IntegerNode) ReaderPos() (x parsley.Pos) = i.readerPos
 //@ specmethod (i *IntegerNode) NodeOK() (x bool) = i != nil
-//@ specmethod (i *IntegerNode) ListSpare() (x int) = 0
-//@ specmethod (i *IntegerNode) ListArr() (x int) = 0
 //@ func NewIntegerNode(schema interface{}, value int64, pos parsley.Pos, readerPos parsley.Pos) (n *IntegerNode)
 //@   ensures fresh(n) && n.schema == schema && n.value == value && n.pos == pos && n.readerPos == readerPos
 //@   assigns nothing
@@ -37,8 +35,6 @@ package terminal
 //@ method (f *FloatNode) Pos() (x parsley.Pos) = f.pos
 //@ method (f *FloatNode) ReaderPos() (x parsley.Pos) = f.readerPos
 //@ specmethod (f *FloatNode) NodeOK() (x bool) = f != nil
-//@ specmethod (f *FloatNode) ListSpare() (x int) = 0
-//@ specmethod (f *FloatNode) ListArr() (x int) = 0
 //@ func NewFloatNode(schema interface{}, value float64, pos parsley.Pos, readerPos parsley.Pos) (n *FloatNode)
 //@   ensures fresh(n) && n.schema == schema && n.value == value && n.pos == pos && n.readerPos == readerPos
 //@   assigns nothing
@@ -49,8 +45,6 @@ package terminal
 //@ method (s *StringNode) Pos() (x parsley.Pos) = s.pos
 //@ method (s *StringNode) ReaderPos() (x parsley.Pos) = s.readerPos
 //@ specmethod (s *StringNode) NodeOK() (x bool) = s != nil
-//@ specmethod (s *StringNode) ListSpare() (x int) = 0
-//@ specmethod (s *StringNode) ListArr() (x int) = 0
 //@ func NewStringNode(schema interface{}, value string, pos parsley.Pos, readerPos parsley.Pos) (n *StringNode)
 //@   ensures fresh(n) && n.schema == schema && n.value == value && n.pos == pos && n.readerPos == readerPos
 //@   assigns nothing
@@ -61,8 +55,6 @@ package terminal
 //@ method (c *CharNode) Pos() (x parsley.Pos) = c.pos
 //@ method (c *CharNode) ReaderPos() (x parsley.Pos) = c.readerPos
 //@ specmethod (c *CharNode) NodeOK() (x bool) = c != nil
-//@ specmethod (c *CharNode) ListSpare() (x int) = 0
-//@ specmethod (c *CharNode) ListArr() (x int) = 0
 //@ func NewCharNode(schema interface{}, value rune, pos parsley.Pos, readerPos parsley.Pos) (n *CharNode)
 //@   ensures fresh(n) && n.schema == schema && n.value == value && n.pos == pos && n.readerPos == readerPos
 //@   assigns nothing
@@ -73,8 +65,6 @@ package terminal
 //@ method (b *BoolNode) Pos() (x parsley.Pos) = b.pos
 //@ method (b *BoolNode) ReaderPos() (x parsley.Pos) = b.readerPos
 //@ specmethod (b *BoolNode) NodeOK() (x bool) = b != nil
-//@ specmethod (b *BoolNode) ListSpare() (x int) = 0
-//@ specmethod (b *BoolNode) ListArr() (x int) = 0
 //@ func NewBoolNode(schema interface{}, value bool, pos parsley.Pos, readerPos parsley.Pos) (n *BoolNode)
 //@   ensures fresh(n) && n.schema == schema && n.value == value && n.pos == pos && n.readerPos == readerPos
 //@   assigns nothing
@@ -85,8 +75,6 @@ package terminal
 //@ method (n *NilNode) Pos() (x parsley.Pos) = n.pos
 //@ method (n *NilNode) ReaderPos() (x parsley.Pos) = n.readerPos
 //@ specmethod (n *NilNode) NodeOK() (x bool) = n != nil
-//@ specmethod (n *NilNode) ListSpare() (x int) = 0
-//@ specmethod (n *NilNode) ListArr() (x int) = 0
 //@ func NewNilNode(schema interface{}, pos parsley.Pos, readerPos parsley.Pos) (n *NilNode)
 //@   ensures fresh(n) && n.schema == schema && n.pos == pos && n.readerPos == readerPos
 //@   assigns nothing
@@ -97,8 +85,6 @@ package terminal
 //@ method (o *OpNode) Pos() (x parsley.Pos) = o.pos
 //@ method (o *OpNode) ReaderPos() (x parsley.Pos) = o.readerPos
 //@ specmethod (o *OpNode) NodeOK() (x bool) = o != nil
-//@ specmethod (o *OpNode) ListSpare() (x int) = 0
-//@ specmethod (o *OpNode) ListArr() (x int) = 0
 //@ func NewOpNode(value string, pos parsley.Pos, readerPos parsley.Pos) (n *OpNode)
 //@   ensures fresh(n) && n.value == value && n.pos == pos && n.readerPos == readerPos
 //@   assigns nothing
@@ -109,8 +95,6 @@ package terminal
 //@ method (t *TimeDurationNode) Pos() (x parsley.Pos) = t.pos
 //@ method (t *TimeDurationNode) ReaderPos() (x parsley.Pos) = t.readerPos
 //@ specmethod (t *TimeDurationNode) NodeOK() (x bool) = t != nil
-//@ specmethod (t *TimeDurationNode) ListSpare() (x int) = 0
-//@ specmethod (t *TimeDurationNode) ListArr() (x int) = 0
 //@ func NewTimeDurationNode(schema interface{}, value time.Duration, pos parsley.Pos, readerPos parsley.Pos) (n *TimeDurationNode)
 //@   ensures fresh(n) && n.schema == schema && n.value == value && n.pos == pos && n.readerPos == readerPos
 //@   assigns nothing
